@@ -424,6 +424,7 @@ pub fn run(tier: Tier) -> i32 {
         ("literal-start/h", r##"<svg><rect id="a" wh="10"/><line id="k" start="30 2" end="#a" edge-type="h"/></svg>"##, "x1=30 x2=10 y1=2 y2=2"),
         ("literal-start/v", r##"<svg><rect id="a" wh="10"/><line id="k" start="2 30" end="#a" edge-type="v"/></svg>"##, "x1=2 x2=2 y1=30 y2=10"),
         ("other-user-space/reference-in-translated-group", r##"<svg><g transform="translate(100 100)"><rect id="a" wh="10"/></g><rect id="b" xy="30 0" wh="10"/><line id="k" start="#a" end="#b"/></svg>"##, "x1=100 x2=40 y1=100 y2=10"),
+        ("reuse-of-connector-placed", r##"<svg><rect id="a" wh="10"/><rect id="b" xy="30 2" wh="10"/><specs><polyline id="c" start="#a" end="#b" corner-offset="$o"/></specs><reuse id="k" href="#c" o="2" x="5"/></svg>"##, "class=c points=10 5, 12 5, 12 7, 30 7"),
         ("edge-type-corner-written-out", r##"<svg><rect id="a" wh="10"/><rect id="b" xy="30 20" wh="10"/><polyline id="k" start="#a" end="#b" edge-type="corner"/></svg>"##, "points=10 5, 20 5, 20 25, 30 25"),
     ];
     let st = run_space(pinned.len(), |i| {
